@@ -306,14 +306,20 @@ def to_python(seg, nptdms):
 REJECTION_KINDS = []      # exception class names of the calls rejected by the last write_resilient (diagnostics)
 
 
-def write_resilient(prog, nptdms, version, data, index, by_path=None):
+def write_resilient(prog, nptdms, version, data, index, by_path=None, first_mode="w"):
     """Run the program against the real TdmsWriter the way a caller that survives errors would: a write_segment call that raises
     (ValueError / TypeError / OverflowError, also while the segment's objects are being built) is skipped and the session goes
     on. Returns (accepted program = prog without the rejected segments, number of rejected calls, unexpected exception or None).
     A rejected call must be a no-op: the bytes written must be those of the accepted program."""
     accepted, rejected = [], 0
     del REJECTION_KINDS[:]
-    mode = "w"
+    mode = first_mode
+    if by_path is not None and first_mode != "w":
+        # appending to a data file that exists but is empty (e.g. made by tempfile.mkstemp): the same bytes as a fresh file
+        import os
+        for q in (by_path, by_path + "_index"):
+            open(q, "wb").close() if q == by_path or first_mode == "a+idx" else None
+        mode = "a"
     try:
         for sess in prog:
             acc = []
